@@ -362,6 +362,7 @@ def write_evidence(pid, tier, seed, mod, t0, stats, violations, props, rc):
         ops=opsh,
         vm_compute_sample=dict(ran=stats.get("vm", {}).get("ran", 0), mismatches=len(stats.get("vm", {}).get("mismatches", []))),
         spec_predicate_failures=len(stats.get("pred_fail", [])),
+        spec_predicate_stats=dict(getattr(mod, "JUDGE_STATS", {})),
         known_findings_seen=stats.get("known", []),
         forbidden_vernacular_hits=stats.get("forb", []),
         explanation=getattr(mod, "EXPLANATION", ""),
